@@ -492,6 +492,27 @@ func vfC02Run(c vfC02Case, ctx *vfCtx) *vfViolation {
 				}
 			}
 		}
+		// (2b) every kind, tolerance-free: a threshold equal to a score the kind itself reports keeps
+		// exactly the hits up to that score (candidate generation does not depend on k or threshold)
+		if len(all) == 1 && all[0].node == 0 && i%2 == 0 {
+			open, err := u.search([][]float32{all[0].q}, nil, &vfSOp{IDs: op.IDs, NP: op.NP, Ef: op.Ef}, 0)
+			if err != nil {
+				return vfFail("op %d: unthresholded search failed: %v", i, err)
+			}
+			if len(open) > 0 {
+				if thr := open[(i/2)%len(open)].Score; thr > 0 {
+					got, err := u.search([][]float32{all[0].q}, nil, &vfSOp{Thr: thr, IDs: op.IDs, NP: op.NP, Ef: op.Ef}, op.K)
+					if err != nil {
+						return vfFail("op %d: search with threshold %v failed: %v", i, thr, err)
+					}
+					if v := vfThresholdRelation(open, got, thr, op.K); v != nil {
+						v.Msg = fmt.Sprintf("op %d: %s: %s", i, c.Kind, v.Msg)
+						return v
+					}
+					ctx.Class("threshold_at_a_reported_score")
+				}
+			}
+		}
 		// (3) node search == search with the node's stored vector
 		if len(op.Nodes) > 0 {
 			var qs [][]float32
